@@ -6,11 +6,14 @@ import (
 	"math/rand"
 	"strconv"
 	"strings"
+	"sync"
+	"time"
 
 	"github.com/hashicorp/serf/coordinate"
 )
 
 // C21: Coordinate.DistanceTo on pairs of coordinates.
+//   conc <G> <iters> <a1> <b1> …  => seq <d1,…> mismatches=<n> first=<…>   (concurrent vs sequential estimates)
 //   law <x> <y>  => bits of x+y, y+x, (x-y)*(x-y), (y-x)*(y-x)
 //   dist <coordA> <coordB>  => ns <d(a,b)> <d(b,a)> | panic-dim      (a direction that panicked prints panic-dim / panic-other in place of its number)
 // Coordinates are written as in C20 (math.Float64bits in hex).
@@ -37,10 +40,93 @@ func c21dist(a, b *coordinate.Coordinate) string {
 	return "ns " + ab + " " + ba
 }
 
+// conc <G> <iters> <a1> <b1> [<a2> <b2> …]: every pair (valid, equal dimension) is estimated sequentially, through
+// Coordinate.DistanceTo and through Client.DistanceTo (a client whose coordinate is a), then G goroutines estimate
+// all pairs <iters> times concurrently, both ways; every concurrent result must be bit-equal to the sequential one.
+// Output: `seq <d1,d2,…> mismatches=<n> first=<pair:path:got:want | ->`.  SCHEDULE-DEPENDENT: a shared-state defect
+// shows up only when two calls overlap; G and iters make that overwhelmingly likely, not certain.
+func c21conc(f []string) string {
+	g, err1 := strconv.Atoi(f[1])
+	iters, err2 := strconv.Atoi(f[2])
+	if err1 != nil || err2 != nil || g < 1 || g > 64 || iters < 1 || iters > 1000000 || (len(f)-3)%2 != 0 {
+		return "bad-op"
+	}
+	type pair struct {
+		a, b *coordinate.Coordinate
+		cl   *coordinate.Client
+		want time.Duration
+	}
+	var pairs []*pair
+	for i := 3; i+1 < len(f); i += 2 {
+		a, ok1 := c20parseCoord(f[i])
+		b, ok2 := c20parseCoord(f[i+1])
+		if !ok1 || !ok2 || len(a.Vec) != len(b.Vec) || len(a.Vec) == 0 || !a.IsValid() || !b.IsValid() {
+			return "bad-op"
+		}
+		cfg := coordinate.DefaultConfig()
+		cfg.Dimensionality = uint(len(a.Vec))
+		cl, err := coordinate.NewClient(cfg)
+		if err != nil || cl.SetCoordinate(a) != nil {
+			return "bad-op"
+		}
+		pairs = append(pairs, &pair{a: a, b: b, cl: cl})
+	}
+	var seq []string
+	for _, p := range pairs {
+		p.want = p.a.DistanceTo(p.b)
+		if w2 := p.cl.DistanceTo(p.b); w2 != p.want {
+			return fmt.Sprintf("seq-client-differs %d %d", int64(w2), int64(p.want))
+		}
+		seq = append(seq, strconv.FormatInt(int64(p.want), 10))
+	}
+	var mu sync.Mutex
+	mismatches := 0
+	first := "-"
+	note := func(i int, path string, got, want time.Duration) {
+		mu.Lock()
+		mismatches++
+		if first == "-" {
+			first = fmt.Sprintf("%d:%s:%d:%d", i, path, int64(got), int64(want))
+		}
+		mu.Unlock()
+	}
+	var wg sync.WaitGroup
+	start := make(chan struct{})
+	for w := 0; w < g; w++ {
+		wg.Add(1)
+		go func(w int) {
+			defer wg.Done()
+			<-start
+			for it := 0; it < iters; it++ {
+				for k := range pairs {
+					i := (k + w) % len(pairs)
+					p := pairs[i]
+					if d := p.a.DistanceTo(p.b); d != p.want {
+						note(i, "coordinate", d, p.want)
+					}
+					if d := p.b.DistanceTo(p.a); d != p.want {
+						note(i, "reverse", d, p.want)
+					}
+					if d := p.cl.DistanceTo(p.b); d != p.want {
+						note(i, "client", d, p.want)
+					}
+				}
+			}
+		}(w)
+	}
+	close(start)
+	wg.Wait()
+	return fmt.Sprintf("seq %s mismatches=%d first=%s", strings.Join(seq, ","), mismatches, first)
+}
+
 func c21Exec(ops []string) []string {
 	outs := make([]string, 0, len(ops))
 	for _, o := range ops {
 		f := strings.Fields(o)
+		if len(f) >= 5 && f[0] == "conc" {
+			outs = append(outs, c21conc(f))
+			continue
+		}
 		if len(f) == 3 && f[0] == "law" {
 			// the two IEEE-754 facts behind C21_symm (CommLaws), sampled on the real float64 arithmetic
 			x, ok1 := c20parseF(f[1])
@@ -220,6 +306,29 @@ func c21Gen(rng *rand.Rand, tier string) []Case {
 		}
 		out = append(out, Case{ID: fmt.Sprintf("d%d", i), Ops: ops, Nontrivial: nt >= 10, Tags: tl})
 	}
+	// concurrent estimates: G goroutines over fixed in-scope pairs of several dimensions
+	nc := 6
+	if tier == "thorough" {
+		nc = 40
+	}
+	for i := 0; i < nc; i++ {
+		np := 2 + rng.Intn(5)
+		var fs []string
+		for k := 0; k < np; k++ {
+			dim := 1 + rng.Intn(8)
+			if rng.Intn(2) == 0 {
+				dim = 8
+			}
+			a, b := gen(dim, 0), gen(dim, 0)
+			fs = append(fs, c20coord(a, true), c20coord(b, true))
+		}
+		g, iters := 8, 4000
+		if tier == "thorough" {
+			g, iters = 4+rng.Intn(13), 8000
+		}
+		out = append(out, Case{ID: fmt.Sprintf("conc%d", i), Ops: []string{fmt.Sprintf("conc %d %d %s", g, iters, strings.Join(fs, " "))},
+			Nontrivial: true, Tags: []string{"concurrent"}})
+	}
 	// law sampling: every pair of the adversarial palette, plus random pairs of mixed magnitudes
 	var lops []string
 	for _, x := range c20Adversarial {
@@ -252,7 +361,7 @@ func init() {
 		ID: "C21",
 		Rule: "25 pairs per case; dimension 8 (2/3) or 1-8; components uniform in ±m or exactly 0, ±m with m from {0.2, 1e-3, 100, 1e4} s, heights in [0, m], adjustments in ±m/10; " +
 			"15% with strongly negative adjustments (guard branch), 10% with huge adjustments (1e5 … 1e300 s), 10% with an adversarial value (NaN, ±Inf, 1e308, subnormals, negative heights: outside the property's scope, compared bit for bit only), " +
-			"1/15 with a different dimension on the right, 1/10: adjusted distance within one rounding error of the guard threshold 0 (b's adjustment cancels raw + a's adjustment, ±1 ulp); 1/20 each: same position, one ulp apart, identical coordinate, adjusted distance exactly 0 (adjustment = -height at the same position). Both d(a,b) and d(b,a) are taken from the real code. Plus `law x y` ops sampling x+y = y+x and (x-y)^2 = (y-x)^2 on float64 (all pairs of a 32-value adversarial palette and random pairs over 40 decades). " +
+			"1/15 with a different dimension on the right, 1/10: adjusted distance within one rounding error of the guard threshold 0 (b's adjustment cancels raw + a's adjustment, ±1 ulp); 1/20 each: same position, one ulp apart, identical coordinate, adjusted distance exactly 0 (adjustment = -height at the same position). Both d(a,b) and d(b,a) are taken from the real code. Plus `conc` ops: 8 (thorough 4-16) goroutines estimating 2-6 fixed in-scope pairs 4000 (thorough 8000) times each way through Coordinate.DistanceTo and Client.DistanceTo, every result compared bit for bit with the sequential estimate of the same pair (SCHEDULE-DEPENDENT: a shared-state defect is found only if two calls overlap, which these counts make overwhelmingly likely but not certain). Plus `law x y` ops sampling x+y = y+x and (x-y)^2 = (y-x)^2 on float64 (all pairs of a 32-value adversarial palette and random pairs over 40 decades). " +
 			"non-trivial = at least 10 in-scope pairs in the case; distinct = distinct op sequence",
 		Gen:  c21Gen,
 		Exec: c21Exec,
